@@ -237,6 +237,22 @@ def run_writer_sequence(case: dict) -> dict:
                     await w.write(as_buffer(data))
                 elif op[0] == "send_headers":
                     w.send_headers()
+                elif op[0] == "eof" and case.get("eof_interrupted") and not ended:
+                    # the transport's buffer is full when the message ends: write_eof() waits in drain(); the caller gives up
+                    # (a timeout around write_eof()), the buffer drains, and whoever finishes the response calls write_eof() again
+                    data = bytes((i * 3 + 1) & 0xFF for i in range(op[1]))
+                    written.extend(data)
+                    cp.p.pause_writing()
+                    t = asyncio.ensure_future(w.write_eof(as_buffer(data)))
+                    for _ in range(case["eof_interrupted"]):
+                        await asyncio.sleep(0)
+                    t.cancel()
+                    try:
+                        await t
+                    except asyncio.CancelledError:
+                        pass
+                    cp.p.resume_writing()
+                    await w.write_eof()
                 elif op[0] == "eof":
                     data = bytes((i * 3 + 1) & 0xFF for i in range(op[1]))
                     written.extend(data)
@@ -305,6 +321,8 @@ def writer_cases(draw):
     mode = draw(st.sampled_from(["chunked", "length", "none"]))
     case = {"ops": [list(o) for o in ops], "mode": mode, "compress": draw(st.sampled_from([None, None, "deflate", "gzip"])),
             "buftype": draw(st.sampled_from(["bytes", "bytes", "bytearray", "memoryview", "memoryview16"]))}
+    if end == "eof" and draw(st.integers(0, 3)) == 0:
+        case["eof_interrupted"] = draw(st.integers(1, 4))
     if mode == "length":
         total = sum(o[1] for o in ops if o[0] in ("write", "eof"))
         case["length"] = max(0, total + draw(st.sampled_from([0, 0, -1, -5, -2048, 1])))
